@@ -159,6 +159,7 @@ func (c *Choices) Consumed() int {
 // ReplayFile is what a violation is reported as.
 type ReplayFile struct {
 	Property   string              `json:"property"`
+	Arm        string              `json:"arm,omitempty"` // the check (property id) whose arm generated the run; "" = Property
 	World      string              `json:"world"`
 	Tier       string              `json:"tier,omitempty"`
 	Seed       uint64              `json:"seed"`
